@@ -116,10 +116,23 @@ def exactness(ctx, report, folder):
     dw = wr.node.args.defaults[-1] if wr.node.args.defaults else None
     dr = rd.node.args.defaults[-1] if rd.node.args.defaults else None
     rdr = ctx.index.get_function("pycaption/microdvd.py", "MicroDVDReader.read")
-    loc = [n.value for n in walk_no_nested(rdr.node) if isinstance(n, ast.Assign) and src(n.targets[0]) == "fps"
-           and isinstance(n.value, ast.Constant)]
-    vals = [getattr(dw, "value", None), getattr(dr, "value", None)] + [v.value for v in loc]
-    report.check(len(set(float(v) for v in vals if v is not None)) == 1 and len(vals) >= 3, "R-TABLE-SIBLING", wr,
+    def _num(f_, node_):
+        # a literal, or an expression that folds to a number (a module-level constant)
+        if node_ is None:
+            return None
+        if isinstance(node_, ast.Constant):
+            return node_.value if isinstance(node_.value, (int, float)) and not isinstance(node_.value, bool) else None
+        try:
+            v_ = folder.eval_in(f_.module, node_)
+        except AnalysisError:
+            return None
+        return v_ if isinstance(v_, (int, float)) and not isinstance(v_, bool) else None
+    loc = [_num(rdr, n.value) for n in walk_no_nested(rdr.node) if isinstance(n, ast.Assign) and src(n.targets[0]) == "fps"]
+    loc = [v for v in loc if v is not None]
+    vals = [_num(wr, dw), _num(rd, dr)] + loc
+    if any(v is None for v in vals) or len(vals) < 3:
+        raise AnalysisError("MicroDVD frame rates: a default that does not fold to a number, or no fallback assignment in read()")
+    report.check(len(set(float(v) for v in vals)) == 1, "R-TABLE-SIBLING", wr,
                  "writer, reader default and reader fallback use the same frame rate", {"values": vals}, "2")
 
 
